@@ -141,10 +141,18 @@ def run(ctx) -> Result:
         n_cases = 0
         for draw in draws:
             bad = None
+            extra = [[0, 0, 0, 1, 1, 2], [0, 1, 1, 1, 2, 3], [2, 2, 0, 1, 3, 3], [0, 0, 0, 0, 0, 1], [3, 3, 3, 2, 1, 0, 0],
+                     [0, 1, 2, 3, 4, 5, 6], [1, 0, 2, 0, 1, 2, 3]]
+            if mode == "incomplete":
+                extra = extra + [[-1, 0, 0, 0, 1, -1], [2, -1, 0, 1, 1, 1, -1], [-1, -1, -1, -1, 0, 0], [0, -1, 1, -1, 2, -1, 3]]
+            all_states = []
             for n in range(1, nmax + 1):
                 if mode == "incomplete" and n == nmax and nmax > 4:
                     continue
-                for vec in states(n, mode == "incomplete"):
+                all_states.extend(states(n, mode == "incomplete"))
+            for vec in all_states + extra:
+                n = len(vec)
+                if True:
                     for elem in range(n):
                         n_cases += 1
                         after, missing, log, err = sim.step(mode, vec, elem, draw)
